@@ -269,3 +269,26 @@ V("c01-new-leaf-slot-mismatch", "C01", HX, "                subnode_position = t
 V("c01-leaf-removed-on-prefix", "C01", HX, "            if trie_key == current_key:\n                return BLANK_NODE", "            if key_starts_with(current_key, trie_key):\n                return BLANK_NODE", rule="ABS4h")
 V("c06-short-root-always-pruned", "C06", HX, "                    if node_body is None and old_root_hash in self.db:", "                    if old_root_hash in self.db:", rule="PENDG2")
 V("c06-double-schedule", "C06", HX, "        if node_type == NODE_TYPE_LEAF:\n            if trie_key == current_key:\n                return BLANK_NODE", "        if node_type == NODE_TYPE_LEAF:\n            if trie_key == current_key:\n                self._prune_node(node)\n                return BLANK_NODE", rule="TS1")
+
+# --- behaviour-preserving refactorings: every affected check must stay silent ----------------------
+ALLP = ["C01", "C02", "C03", "C04", "C05", "C06", "C07", "C08", "C10", "C11", "C12", "C13", "C14", "C15", "C16", "C17", "C18"]
+V("eq-proof-len-commuted", "C03", HX, "                new_proven_len = proven_len + len(current_key)\n", "                new_proven_len = len(current_key) + proven_len\n", expect="silent")
+V("eq-proof-branch-len-commuted", "C03", HX, "            new_proven_len = proven_len + 1\n", "            new_proven_len = 1 + proven_len\n", expect="silent")
+V("eq-smt-bit-test-explicit", "C14", SM, "            if path & target_bit:\n                branch.append(left)", "            if path & target_bit != 0:\n                branch.append(left)", expect="silent", props=["C14", "C15"])
+V("eq-smt-bit-test-commuted", "C14", SM, "            if path & target_bit:\n                node = sibling_node + node_hash", "            if target_bit & path:\n                node = sibling_node + node_hash", expect="silent", props=["C14", "C15"])
+V("eq-proof-bit-test-ne", "C15", SM, "                if path_diff & (1 << bit) > 0:", "                if path_diff & (1 << bit) != 0:", expect="silent")
+V("eq-get-local-renamed", "C01", HX, "        node, remaining_key = self._traverse(root_hash, trie_key)\n\n        node_type = get_node_type(node)\n\n        if node_type == NODE_TYPE_BLANK:\n            return BLANK_NODE\n        elif node_type == NODE_TYPE_LEAF:\n            if remaining_key == extract_key(node):\n                return node[1]",
+  "        found, rest = self._traverse(root_hash, trie_key)\n        node, remaining_key = found, rest\n\n        node_type = get_node_type(node)\n\n        if node_type == NODE_TYPE_BLANK:\n            return BLANK_NODE\n        elif node_type == NODE_TYPE_LEAF:\n            if extract_key(node) == remaining_key:\n                return node[-1]", expect="silent", props=["C01", "C03", "C07"])
+V("eq-traverse-used-key-inline", "C07", HX, "                used_key = trie_key[: len(trie_key) - len(remaining_key)]\n\n                raise MissingTraversalNode(exc.args[0], used_key)", "                raise MissingTraversalNode(\n                    exc.args[0], trie_key[: len(trie_key) - len(remaining_key)]\n                )", expect="silent", props=["C07", "C08", "C01"])
+V("eq-set-db-value-guard-first", "C06", HX, "        self.db[key] = value\n        if self.is_pruning:\n            self._ref_count[key] += 1", "        if self.is_pruning:\n            self._ref_count[key] += 1\n        self.db[key] = value", expect="silent", props=["C06", "C04", "C01", "C05"])
+V("eq-exists-not-eq", "C01", HX, "        return self.get(key) != BLANK_NODE", "        return not (self.get(key) == BLANK_NODE)", expect="silent")
+V("eq-fog-is-complete-not", "C11", FG, "        return len(self._unexplored_prefixes) == 0", "        return not self._unexplored_prefixes", expect="silent")
+V("eq-binary-get-elif-to-if", "C12", BN, "            return right_child\n        elif nodetype == KV_TYPE:\n            # Keypath too short\n            if not keypath:\n                return None\n            if keypath[: len(left_child)] == left_child:", "            return right_child\n        if nodetype == KV_TYPE:\n            # Keypath too short\n            if not keypath:\n                return None\n            if keypath[: len(left_child)] == left_child:", expect="silent", props=["C12", "C13"])
+V("eq-binary-len-zero", "C12", BN, "            # Keypath too short\n            if not keypath:\n                return None\n            if keypath[: len(left_child)] == left_child:", "            # Keypath too short\n            if len(keypath) == 0:\n                return None\n            if keypath[: len(left_child)] == left_child:", expect="silent", props=["C12", "C13"])
+V("eq-scratch-getitem-flat", "C17", DB, "        if key in self.cache:\n            val = self.cache[key]\n            if val is not DELETED:\n                return val\n            else:\n                return self.wrapped_db[key]\n        else:\n            return self.wrapped_db[key]",
+  "        if key in self.cache and self.cache[key] is not DELETED:\n            return self.cache[key]\n        return self.wrapped_db[key]", expect="silent", props=["C17", "C05", "C06", "C04"])
+V("eq-validate-order-swapped", "C18", HX, "        validate_is_bytes(key)\n        validate_is_bytes(value)\n\n        trie_key = bytes_to_nibbles(key)\n\n        try:\n            root_node = self.get_node(self.root_hash)\n\n            if value", "        validate_is_bytes(value)\n        validate_is_bytes(key)\n\n        trie_key = bytes_to_nibbles(key)\n\n        try:\n            root_node = self.get_node(self.root_hash)\n\n            if value", expect="silent", props=["C18", "C01", "C07"])
+V("eq-parse-node-type-local", "C16", ND, "    if node is None or node == b\"\":\n        raise InvalidNode(\"Blank node is not a valid node type in Binary Trie\")\n    elif node[0] == BRANCH_TYPE:", "    if node is None or node == b\"\":\n        raise InvalidNode(\"Blank node is not a valid node type in Binary Trie\")\n    node_type = node[0]\n    if node_type == BRANCH_TYPE:", expect="silent", props=["C16", "C12", "C13"])
+V("eq-iter-message-and-comment", "C10", IT, "                # This segment is to the left of the key, keep looking...\n                continue", "                # nothing here\n                continue", expect="silent")
+V("eq-smt-delete-local", "C14", SM, "        return self.set(key, self._default)", "        updates = self.set(key, self._default)\n        return updates", expect="silent", props=["C14", "C15"])
+V("eq-hexary-new-public-method", "C18", HX, "    def exists(self, key):\n        validate_is_bytes(key)\n", "    def has_key(self, key):\n        validate_is_bytes(key)\n        return self.exists(key)\n\n    def exists(self, key):\n        validate_is_bytes(key)\n", expect="silent", props=ALLP)
